@@ -6,6 +6,7 @@ package main
 import (
 	"fmt"
 	"go/ast"
+	"go/token"
 	"go/types"
 	"strings"
 )
@@ -150,7 +151,7 @@ func (fc *FnCtx) trCall(st *State, call *ast.CallExpr) []Val {
 	}
 	if fn.Pkg() != nil && isVerifFile(fc.pkg.Fset.Position(fn.Pos()).Filename) {
 		switch fn.Name() {
-		case "forall", "exists", "implies", "ite", "iteS", "byteStr", "reMatch", "reGroup", "itoa":
+		case "forall", "exists", "implies", "ite", "iteS", "byteStr", "reMatch", "reGroup", "itoa", "reMatchDyn":
 			return []Val{fc.trHelper(st, fn.Name(), call)}
 		}
 	}
@@ -320,6 +321,7 @@ func (fc *FnCtx) trBuiltin(st *State, name string, call *ast.CallExpr) []Val {
 		v := fc.tr(st, call.Args[0])
 		return []Val{fc.lenOf(st, v, call)}
 	case "append":
+		fc.aliasCheck(st, call)
 		base := fc.tr(st, call.Args[0])
 		if base.S == SNil {
 			base = zeroVal(fc, st, sortOf(fc.typeOf(call)), fc.typeOf(call))
@@ -329,6 +331,9 @@ func (fc *FnCtx) trBuiltin(st *State, name string, call *ast.CallExpr) []Val {
 		case SSL:
 			if call.Ellipsis.IsValid() {
 				b := fc.tr(st, call.Args[1])
+				if cur == "emptysl" {
+					return []Val{{T: b.T, S: SSL, GT: base.GT}} // copy of b
+				}
 				return []Val{{T: "(slcat " + cur + " " + b.T + ")", S: SSL, GT: base.GT}}
 			}
 			for _, a := range call.Args[1:] {
@@ -423,6 +428,8 @@ func (fc *FnCtx) lenOf(st *State, v Val, n ast.Node) Val {
 		return l
 	case SNil:
 		return intVal("0")
+	case SLL:
+		return intVal(v.Rec)
 	}
 	fc.errorf("%s: len of unsupported sort", fc.posOf(n))
 	return fc.freshVal(st, "len", SInt, nil)
@@ -452,7 +459,7 @@ func (fc *FnCtx) trContractCall(st *State, call *ast.CallExpr) Val {
 		v := fc.tr(tmp, call.Args[0])
 		st.assume = tmp.assume
 		return v
-	case "implies", "ite", "iteS", "forall", "exists", "byteStr", "reMatch", "reGroup", "itoa":
+	case "implies", "ite", "iteS", "forall", "exists", "byteStr", "reMatch", "reGroup", "itoa", "reMatchDyn":
 		return fc.trHelper(st, name, call)
 	}
 	return fc.trContractCall2(st, call, name)
@@ -467,6 +474,11 @@ func (fc *FnCtx) trHelper(st *State, name string, call *ast.CallExpr) Val {
 	case "itoa":
 		v := fc.tr(st, call.Args[0])
 		return Val{T: "(itoa " + v.T + ")", S: SStr}
+	case "reMatchDyn":
+		p := fc.tr(st, call.Args[0])
+		v := fc.tr(st, call.Args[1])
+		fc.w.needDynRe = true
+		return boolVal("(rematchdyn " + p.T + " " + v.T + ")")
 	case "reMatch", "reGroup":
 		// first argument names a package-level regex variable: resolved to its literal
 		lit := ""
@@ -600,6 +612,9 @@ func (fc *FnCtx) trContractCall2(st *State, call *ast.CallExpr, name string) Val
 		}
 		// not called on this path: an arbitrary value (clauses guard with called())
 		return Val{S: SNil, T: "0"}
+	case "fileContent":
+		p := fc.tr(st, call.Args[0])
+		return Val{T: "(fsread " + p.T + " " + fc.fsWrites(st).T + ")", S: SStr}
 	case "lastRead":
 		return fc.readKey(st, "ghost.lastRead", types.Typ[types.String])
 	case "fsWrites":
@@ -889,4 +904,87 @@ func (fc *FnCtx) havocVal(st *State, v Val) {
 			}
 		}
 	}
+}
+
+// aliasCheck: slices are modelled as values. `append(xs[:k], ...)` may write into the
+// backing array of xs, which the value model hides; that is sound only if xs is dead
+// afterwards (not read again before being reassigned). Checked syntactically.
+func (fc *FnCtx) aliasCheck(st *State, call *ast.CallExpr) {
+	if !fc.safetyOn() || fc.dry > 0 {
+		return
+	}
+	se, ok := call.Args[0].(*ast.SliceExpr)
+	if !ok {
+		return
+	}
+	root := rootIdent(se.X)
+	if root == nil {
+		return
+	}
+	obj := fc.info().ObjectOf(root)
+	if obj == nil {
+		return
+	}
+	// region in which later reads matter: rest of the function after the call, plus the
+	// whole body of the outermost enclosing loop
+	from := call.End()
+	loopStart, loopEnd := token.NoPos, token.NoPos
+	ast.Inspect(fc.body, func(n ast.Node) bool {
+		switch l := n.(type) {
+		case *ast.ForStmt, *ast.RangeStmt:
+			if l.Pos() <= call.Pos() && call.End() <= l.End() && loopStart == token.NoPos {
+				loopStart, loopEnd = l.Pos(), l.End()
+			}
+		}
+		return true
+	})
+	// the statement containing the call may reassign the variable itself: x = append(x[:k], ...)
+	reassigned := false
+	var badPos []string
+	ast.Inspect(fc.body, func(n ast.Node) bool {
+		if as, ok := n.(*ast.AssignStmt); ok && as.Pos() <= call.Pos() && call.End() <= as.End() {
+			for _, l := range as.Lhs {
+				if id, ok := l.(*ast.Ident); ok && fc.info().ObjectOf(id) == obj {
+					reassigned = true
+				}
+			}
+		}
+		return true
+	})
+	if !reassigned {
+		lhs := map[*ast.Ident]bool{}
+		ast.Inspect(fc.body, func(n ast.Node) bool {
+			if as, ok := n.(*ast.AssignStmt); ok {
+				for _, l := range as.Lhs {
+					if id, ok := l.(*ast.Ident); ok {
+						lhs[id] = true
+					}
+				}
+			}
+			return true
+		})
+		ast.Inspect(fc.body, func(n ast.Node) bool {
+			id, ok := n.(*ast.Ident)
+			if !ok || fc.info().ObjectOf(id) != obj || lhs[id] {
+				return true
+			}
+			inLoop := loopStart != token.NoPos && id.Pos() >= loopStart && id.End() <= loopEnd && !(id.Pos() >= call.Pos() && id.End() <= call.End())
+			if id.Pos() >= from || inLoop {
+				badPos = append(badPos, fc.pos(id))
+			}
+			return true
+		})
+	}
+	ord := fc.siteOrdinal("alias", call)
+	goal := "true"
+	if len(badPos) > 0 {
+		goal = "false"
+	}
+	fc.oblige(st, fmt.Sprintf("alias#%d", ord), "alias", fc.contract.safetyTags(), goal,
+		fmt.Sprintf("%s is not read again after %s (the append may overwrite its backing array)%s", root.Name, exprString(call), func() string {
+			if len(badPos) > 0 {
+				return "; read at " + strings.Join(badPos, ", ")
+			}
+			return ""
+		}()), call)
 }
